@@ -253,7 +253,7 @@ impl Prop for C12 {
         }
         // larger tables, random multi-cut plans and forced cuts at the record limit
         for t in 0..ctx.tier.pick(6, 20) {
-            let n = 1 + rng.usize(if t == 0 { 3 } else { 60 });
+            let n = 1 + rng.usize(if t == 0 { 3 } else { 60 }) + (t == 1) as usize * 2;
             let table: Vec<SstStr> = (0..n)
                 .map(|i| {
                     serial += 1;
@@ -269,7 +269,8 @@ impl Prop for C12 {
                     let decor = rng.chance(1, 3);
                     SstStr {
                         text: if len == 0 { String::new() } else { gen_text(&mut rng, serial, len.min(32_000), class) },
-                        runs: if decor { 1 + rng.usize(20) } else { 0 },
+                        // one string whose rgRun block alone exceeds 64 KiB (cRun * 4 does not fit 16 bits)
+                        runs: if t == 1 && i == 0 { 16_384 + rng.usize(20_000) } else if decor { 1 + rng.usize(20) } else { 0 },
                         ext: if decor && rng.bool() { 1 + rng.usize(300) } else { 0 },
                         force_wide: rng.chance(1, 5),
                     }
